@@ -23,13 +23,15 @@ func yield(y Yielder, site string) {
 // SimWriter: the destination-stream seam.
 
 const (
-	FaultNone    = 0
-	FaultSticky  = 1 // Write call k and every later call fail
-	FaultOnce    = 2 // only Write call k fails; later calls succeed
-	FaultPartial = 3 // call k accepts a strict prefix and fails; later calls fail
+	FaultNone        = 0
+	FaultSticky      = 1 // Write call k and every later call fail
+	FaultOnce        = 2 // only Write call k fails; later calls succeed
+	FaultPartial     = 3 // call k accepts a strict prefix and fails; later calls fail
+	FaultPartialOnce = 4 // call k accepts a strict prefix and fails; later calls succeed
+	NFaultModes      = 5
 )
 
-var faultNames = map[int]string{FaultSticky: "writer_sticky", FaultOnce: "writer_once", FaultPartial: "writer_partial"}
+var faultNames = map[int]string{FaultSticky: "writer_sticky", FaultOnce: "writer_once", FaultPartial: "writer_partial", FaultPartialOnce: "writer_partial_once"}
 
 // ErrInjected is the error a SimWriter returns at an injected fault.
 var ErrInjected = errors.New("sim: injected write failure")
@@ -62,7 +64,7 @@ func (w *SimWriter) Write(p []byte) (int, error) {
 				w.ZeroLen = true
 			}
 			return 0, ErrInjected
-		case w.Mode == FaultPartial && k == w.FaultAt:
+		case (w.Mode == FaultPartial || w.Mode == FaultPartialOnce) && k == w.FaultAt:
 			n := 0
 			if len(p) > 0 {
 				n = len(p) * w.Frac / 100
